@@ -367,8 +367,8 @@ def gen_stack(rng, rs, spec, names, priced, prefix, opts, is_child=False):
         fn = prefix + "cd"
         spec["extras"][fn] = {"table": {"index": rng.sample(list(names), k), "date_rows": [rng.randint(2, nd - 2) for _ in range(k)]}}
         for i_, a_ in enumerate(st):
-            if isinstance(a_, dict) and a_.get("a", "").startswith("Weigh"):
-                st.insert(i_, {"a": "SelectActive"})
+            if isinstance(a_, dict) and a_.get("a", "").startswith("Select"):
+                st.insert(i_ + 1, {"a": "SelectActive"})     # right after the first selection: later random/ranked picks consume its order
                 break
         st.insert(0, {"$run_always": {"a": "ClosePositionsAfterDates", "args": [fn]}})
         desc.append("closeroll")
